@@ -12,6 +12,11 @@ Part B  controlled two-thread interleavings.  Two operations on distinct packets
         parent forces a chosen interleaving of those points (all interleavings when the number
         is small, a seeded sample otherwise).  Each thread's result must equal the sequential
         result.
+Part B2 single-preemption sweeps at line granularity.  Thread 0 is suspended right before its k-th line
+        inside the library (sys.monitoring LINE events on bisturi's and the generated modules' code
+        objects); thread 1 then parses and serializes another packet of the class to completion; thread 0
+        resumes.  k runs over every line of the run-time selection / expression evaluation code and a
+        seeded sample of the other lines.  Deterministic: no timing is involved.
 Part C  free-running threads with yield injection (sys.monitoring LINE events inside
         bisturi/*.py, setswitchinterval(1e-6)); each thread checks only its own packets against
         values computed sequentially beforehand.
@@ -26,7 +31,8 @@ from ..common import rng_for, b2j
 
 LEVEL = "exploration"
 SHARDS = {"quick": 1, "thorough": 16}
-REQUIRED = ("pack_outputs_compared_with_reference_encoding", "bytearray_values_assigned", "history_operations", "bystander_comparisons", "alias_scans", "repeated_pack_checks", "ops_unpack", "ops_construct",
+REQUIRED = ("single_preemption_schedules", "single_preemption_schedules_inside_run_time_selection_or_expression",
+            "free_thread_declarations_with_a_shared_options_table", "pack_outputs_compared_with_reference_encoding", "bytearray_values_assigned", "history_operations", "bystander_comparisons", "alias_scans", "repeated_pack_checks", "ops_unpack", "ops_construct",
             "ops_set_leaf", "ops_list_append", "ops_set_nested", "ops_pack", "interleavings_executed", "thread_results_compared",
             "free_thread_operations", "context_switches_in_bisturi", "f2_probe_runs")
 MIN_NONTRIVIAL = 100
@@ -553,6 +559,173 @@ def controlled_part(run, bench, rng, limit):
                 return
 
 
+# ------------------------------------------------------------------------------------------ part B2
+def bisturi_codes():
+    """Code objects of the library and of the generated modules loaded right now."""
+    import types
+    out = []
+    for name, mod in list(sys.modules.items()):
+        f = getattr(mod, "__file__", None) or ""
+        if not (name.startswith("bisturi") or "__pkts__" in f):
+            continue
+        for obj in list(vars(mod).values()):
+            if isinstance(obj, types.FunctionType):
+                out.append(obj.__code__)
+            elif isinstance(obj, type):
+                for o in vars(obj).values():
+                    fn = getattr(o, "__func__", o)
+                    if isinstance(fn, types.FunctionType):
+                        out.append(fn.__code__)
+    return out
+
+
+class Preempter:
+    """Single-preemption schedules at line granularity: thread 0 runs its operation; when it is about to execute its
+    k-th line inside the library it is suspended, thread 1 runs a whole operation on another packet of the class, then
+    thread 0 resumes.  Deterministic (no timing involved): k enumerates the preemption points."""
+    TOOL = 3
+
+    def __init__(self, codes):
+        self.codes = codes
+        self.k = None
+        self.n = 0
+        self.victim = None
+        self.other = None          # callable run in the second thread
+        self.where = None
+        self.timed_out = False
+
+    def cb(self, code, line):
+        if threading.get_ident() != self.victim:
+            return
+        i = self.n
+        self.n += 1
+        if self.k is not None and i == self.k:
+            self.where = (code.co_name, line)
+            t = threading.Thread(target=self.other)
+            t.start()
+            t.join(120)
+            if t.is_alive():
+                self.timed_out = True
+
+    def __enter__(self):
+        mon = sys.monitoring
+        try:
+            mon.use_tool_id(self.TOOL, "bvf-preempt")
+        except ValueError:
+            mon.free_tool_id(self.TOOL)
+            mon.use_tool_id(self.TOOL, "bvf-preempt")
+        mon.register_callback(self.TOOL, mon.events.LINE, self.cb)
+        for c in self.codes:
+            mon.set_local_events(self.TOOL, c, mon.events.LINE)
+        return self
+
+    def __exit__(self, *a):
+        mon = sys.monitoring
+        for c in self.codes:
+            try:
+                mon.set_local_events(self.TOOL, c, 0)
+            except Exception:
+                pass
+        mon.register_callback(self.TOOL, mon.events.LINE, None)
+        mon.free_tool_id(self.TOOL)
+        return False
+
+
+def plain_op(fam, cls, raw, out, idx):
+    try:
+        r = cls.unpack(raw)
+        pv = monitors.pkt_to_pv(fam, fam["root"], r)
+        out[idx] = (pv, None, ("ok", r.pack()))
+    except BaseException as e:
+        out[idx] = ("raised", type(e).__name__, str(e)[:200])
+
+
+def shares_a_literal(fam):
+    """Some declaration of the family has two selectors bound to one options table that holds literal fields."""
+    return any("share" in f and any(o["t"] != "ref" for o in f["options"].values()) for d in fam["decls"].values() for f in d["fields"])
+
+
+def preemption_sweep(run, bench, rng, cap):
+    fam = bench.fam
+    v = rng.choice(["g", "d"])
+    cls = bench.root(v)
+    inputs = []
+    for _ in range(16):
+        raw, oc = model.generate_input(fam, rng, maxlen=60)
+        if oc == "ok":
+            seq = sequential_result(fam, cls, raw)
+            if seq is not None and seq[2][0] == "ok" and all(raw != r for r, _ in inputs):
+                inputs.append((raw, seq))
+        if len(inputs) >= 2:
+            break
+    if len(inputs) < 2:
+        return
+    (raw0, seq0), (raw1, seq1) = inputs
+    import bisturi.field as bfld
+    import bisturi.deferred as bd
+    hot = {bfld.Ref._unpack_using_callable.__code__, bfld.Ref._pack_with_callable.__code__, bd.exec_compiled_expr.__code__}
+    with Preempter(bisturi_codes()) as pre:
+        # dry run: how many line events does thread 0's operation produce, and which of them are in the hot functions
+        hits = []
+        real_cb = pre.cb
+
+        def counting(code, line):
+            if threading.get_ident() == pre.victim:
+                hits.append(code in hot)
+        sys.monitoring.register_callback(pre.TOOL, sys.monitoring.events.LINE, counting)
+        out = {}
+        t = threading.Thread(target=lambda: (setattr(pre, "victim", threading.get_ident()), plain_op(fam, cls, raw0, out, 0)))
+        t.start()
+        t.join(120)
+        sys.monitoring.register_callback(pre.TOOL, sys.monitoring.events.LINE, real_cb)
+        n = len(hits)
+        if n == 0 or out.get(0) != (seq0[0], None, seq0[2]):
+            return
+        ks = [i for i, h in enumerate(hits) if h]
+        rest = [i for i in range(n) if not hits[i]]
+        rng.shuffle(rest)
+        ks = (ks + rest)[:cap]
+        run.count("preemption_points_available", n)
+        for k in ks:
+            out = {}
+            pre.k, pre.n, pre.where, pre.timed_out = k, 0, None, False
+            # the other thread works on a different packet: alternately one parsed from other bytes and one parsed from the same bytes
+            # (the same run-time selections, hence the same literal field objects)
+            other_raw, other_seq = ((raw1, seq1), (raw0, seq0))[(ks.index(k)) % 2]
+            pre.other = lambda: plain_op(fam, cls, other_raw, out, 1)
+
+            def body():
+                pre.victim = threading.get_ident()
+                plain_op(fam, cls, raw0, out, 0)
+            t = threading.Thread(target=body)
+            t.start()
+            t.join(240)
+            pre.victim = None
+            if t.is_alive() or pre.timed_out:
+                run.count("preemption_watchdog")
+                run.inconclusive_because("preemption-watchdog")
+                return
+            if pre.where is None:
+                run.count("preemption_point_not_reached")
+                continue
+            run.count("single_preemption_schedules")
+            if hits[k]:
+                run.count("single_preemption_schedules_inside_run_time_selection_or_expression")
+            run.cover("preemption_sites", "%s:%d" % pre.where)
+            run.case(key=("B2", bench.skeleton, pre.where), nontrivial=True)
+            for idx, seq in ((0, seq0), (1, other_seq)):
+                got = out.get(idx)
+                if got != (seq[0], None, seq[2]):
+                    run.violation("with one preemption (thread 0 suspended at a line inside the library while thread 1 parses and serializes "
+                                  "another packet of the class) a packet came out different from the sequential result",
+                                  {"source": driver.src_of(bench, v), "variant": v, "inputs": [b2j(raw0), b2j(other_raw)], "disturbed_thread": idx,
+                                   "preempted_at": {"function": pre.where[0], "line": pre.where[1], "line_event_index": k},
+                                   "got": got[0].to_json() if isinstance(got, tuple) and isinstance(got[0], model.PV) else repr(got)[:300],
+                                   "want": seq[0].to_json(), "got_bytes": got[2] if isinstance(got, tuple) and len(got) > 2 else None,
+                                   "want_bytes": seq[2], "fam": fam}, None)
+                    return
+
+
 # ------------------------------------------------------------------------------------------ part C
 class YieldInjector:
     """sys.monitoring LINE callback restricted to bisturi code objects: sleeps(0) with
@@ -611,7 +784,11 @@ class YieldInjector:
         mon.register_callback(self.TOOL, mon.events.LINE, self.cb)
         self.codes = self._codes()
         import bisturi.deferred as bd
-        self.hot = {bd.exec_compiled_expr.__code__}
+        import bisturi.field as bfld
+        # code shared by all packets of a class that works on objects reachable from several packets: the deferred
+        # expression evaluator and the run-time selection of a Ref (its callable may return one literal field object
+        # to every packet, and to several Ref fields when they share an options table)
+        self.hot = {bd.exec_compiled_expr.__code__, bfld.Ref._unpack_using_callable.__code__, bfld.Ref._pack_with_callable.__code__}
         for c in self.codes:
             mon.set_local_events(self.TOOL, c, mon.events.LINE)
         self.old = sys.getswitchinterval()
@@ -737,15 +914,41 @@ def run(run):
         controlled_part(run, bench, rng, limit)
         if run.counters["violations"] > 20:
             return
+    # Part B2: single-preemption sweeps at line granularity (half of the declarations with shared options tables)
+    shared = dict(PROFILE, kinds={"int": 30, "data": 14, "bits": 4, "ref": 8, "sel": 42, "em": 1}, p_share_table=0.9, max_depth=2, p_rep=0.12, p_opt=0.06,
+                  p_sel_all_packets=0.1, min_fields=4, accept=shares_a_literal)
+    nsweep, cap = (24, 40) if quick else (60, 400)
+    for prof, n in ((dict(PROFILE, max_fields=5, max_depth=2), nsweep // 2), (dict(shared, min_fields=4, max_fields=6), nsweep // 2)):
+        for bench in driver.families(run, rng, prof, VARIANTS, n, instrument=(), tag="c13b2"):
+            preemption_sweep(run, bench, rng, cap)
+            if run.counters["violations"] > 20:
+                return
     # Part C
     nb, nops = (6, 300) if quick else (12, 1500)
     benches = []
     # the classes stay importable (sys.modules) while the threads run: prototype cloning unpickles by module name
-    gen = driver.families(run, rng, PROFILE, VARIANTS, nb, instrument=(), tag="c13c", keep_loaded=True)
-    for bench in gen:
-        benches.append(bench)
-        if len(benches) >= nb:
-            free_part(run, benches, rng, 8, nops)
-            for b in benches:
-                b.close()
+    # a third of the declarations: several selectors sharing one options table (one literal field object bound by several Ref fields)
+    k = nb - nb // 3
+    g1 = driver.families(run, rng, PROFILE, VARIANTS, nb + 1, instrument=(), tag="c13c", keep_loaded=True)
+    g2 = driver.families(run, rng, dict(shared, min_fields=4), VARIANTS, 60 * nb, instrument=(), tag="c13cs", keep_loaded=True)
+    try:
+        for bench in g1:
+            benches.append(bench)
+            if len(benches) >= k:
+                break
+        for bench in g2:
+            # from the second population keep only declarations that really share a table
+            if not any("share" in f for d in bench.fam["decls"].values() for f in d["fields"]):
+                bench.close()
+                continue
+            run.count("free_thread_declarations_with_a_shared_options_table")
+            benches.append(bench)
+            if len(benches) >= nb:
+                break
+        free_part(run, benches, rng, 8, nops)
+    finally:
+        for b in benches:
+            b.close()
+        g1.close()
+        g2.close()
     run.extra["distinct_interleavings"] = len(run.coverage_sets.get("distinct_hook_orders", ()))
